@@ -145,7 +145,7 @@ class CHECK(core.Check):
                 ops.append("S%d" % mid if kind == "x" else "SN" if kind == "e" else "S3")
             elif malformed and x < 0.13:
                 ops.append(rng.choice(["TN", "YN", "MN", tok_create(kind, T, R)]))
-        return {"ops": ops, "msgs": rng.choice(["packet", "lazy", "plain"])}
+        return {"ops": ops, "msgs": rng.choice(["packet", "lazy", "plain"]), "share": rng.random() < 0.4}
 
     def generate(self, rng, n, tier):
         for _ in range(n):
@@ -206,7 +206,10 @@ class CHECK(core.Check):
             def transmit(self, pkt): self.txPkts.append(pkt)
             def message(self, msg): self.txMsgs.append(msg)
 
-        stack = PlainStack() if mode == "plain" else stacking.Stack()
+        from collections import deque
+        given = dict(txPkts=deque(), txMsgs=deque()) if case.get("share") and mode != "plain" else {}
+        stack = PlainStack() if mode == "plain" else stacking.Stack(**given)
+        outbox, msgbox = stack.txPkts, stack.txMsgs      # the caller's own references to the stack's queues
         device = devicing.Device(stacking.Stack()) if mode == "plain" else devicing.Device(stack)
         pkts = {}
 
@@ -233,7 +236,7 @@ class CHECK(core.Check):
                 k, arg = parse(tok)
             except Exception:
                 return ["bad-op"]
-            mark, markm = len(stack.txPkts), len(stack.txMsgs)
+            mark, markm = len(outbox), len(msgbox)
             err = "ok"
             try:
                 if k == "C":
@@ -275,7 +278,9 @@ class CHECK(core.Check):
                     ex.run()
             except Exception as e:
                 err = "ERR " + type(e).__name__
-            queued = [mid_of(p) for p in list(stack.txPkts)[mark:]] + [mid_of(m) for m in list(stack.txMsgs)[markm:]]
+            queued = [mid_of(p) for p in list(outbox)[mark:]] + [mid_of(m) for m in list(msgbox)[markm:]]
+            if stack.txPkts is not outbox or stack.txMsgs is not msgbox or any(getattr(stack, k) is not v for k, v in given.items()):
+                err += " !rebound"
             flags = " d=- f=-" if ex is None else " d=%d f=%d" % (bool(ex.done), bool(ex.failed))
             out.append("%s %s%s" % (",".join(map(str, queued)) or "-", err, flags))
         return out or ["-"]
@@ -301,6 +306,8 @@ class CHECK(core.Check):
         latest = None
         started = done = False
         for tok, line in zip(ops, out):
+            if "!rebound" in line:
+                return "after %s the stack no longer uses the queue objects the caller holds" % tok
             k, arg = parse(tok)
             q, rest = line.split(" ", 1)
             queued = [] if q == "-" else [int(x) for x in q.split(",")]
